@@ -1,6 +1,6 @@
 (* C15 — property theorems only.  Bodies live in Proofs.v. *)
-From Coq Require Import PArith List Bool.
-From EsVerif.C15 Require Import Model Spec Proofs.
+From Coq Require Import PArith ZArith List Bool.
+From EsVerif.C15 Require Import Model Spec Proofs Complete Exec ExecProofs.
 Import ListNotations.
 
 (* Soundness of the frame checker: if the verified analysis accepts a skeleton for the parameter
@@ -36,6 +36,36 @@ Proof. exact unchanged_check_sound. Qed.
 
 Theorem C15_unchanged_check_complete : forall l, all_unchanged l -> unchanged_check l = true.
 Proof. exact unchanged_check_complete. Qed.
+
+(* Exactness of the checker with respect to the skeleton semantics: a rejection for a write (the only
+   reason besides fuel, by C15_rejection_reasons) is never an artefact of the abstract domain -- from EVERY
+   start state in which the parameters are bound the rejected skeleton has an execution that changes a
+   parameter's buffer. *)
+Theorem C15_rejection_exact : forall sk ps x s,
+  analyze_r default_fuel sk (init_amap ps) = ABad x s ->
+  forall st, params_bound ps st ->
+  exists st', exec sk st st' /\ ~ params_unchanged ps st st'.
+Proof. exact frame_ok_complete. Qed.
+
+(* Decision form: unless the loop analysis ran out of fuel (reported apart, fail closed), frame_ok is true
+   EXACTLY when no execution of the skeleton from the given admissible start state changes a parameter. *)
+Theorem C15_frame_ok_decides : forall sk ps,
+  analyze_r default_fuel sk (init_amap ps) <> AFuel ->
+  forall st, params_bound ps st -> others_apart ps st ->
+  (frame_ok sk ps = true <-> forall st', exec sk st st' -> params_unchanged ps st st').
+Proof. exact frame_ok_decides. Qed.
+
+(* What the verdict of a generated dynamic case means: verdict 0 (the only one that is not reported)
+   implies that every observed argument snapshot is unchanged; a changed argument gives a verdict >= 2,
+   whatever the static obligation said. *)
+Theorem C15_verdict_zero_sound : forall static_ok args, v_dynamic static_ok args = 0%Z -> all_unchanged args.
+Proof. exact v_dynamic_zero_sound. Qed.
+
+Theorem C15_verdict_changed : forall static_ok args, ~ all_unchanged args -> (2 <= v_dynamic static_ok args)%Z.
+Proof. exact v_dynamic_changed. Qed.
+
+(* (ExecProofs.v_dynamic63_zero_sound states the same for the primitive-integer transport; it is kept out of this
+   file because its STATEMENT mentions the primitive type PrimInt63.int, which Print Assumptions lists.) *)
 
 (* ---- non-vacuity -------------------------------------------------------------------------
    def f(a, inplace):                      parameter a = 1
